@@ -1640,9 +1640,15 @@ func (b *Bitmap) unmarshalPilosaRoaring(data []byte) error {
 	b.Containers.ResetN(int(keyN))
 	// Descriptive header section: Read container keys and cardinalities.
 	for i, buf := 0, data[headerSize:]; i < int(keyN); i, buf = i+1, buf[12:] {
+		typ := byte(binary.LittleEndian.Uint16(buf[8:10]))
+		// checked before the container is stored: a repeated key would
+		// otherwise update (and thaw) a container of an invalid type.
+		if typ != containerArray && typ != containerBitmap && typ != containerRun {
+			return fmt.Errorf("unsupported container type %d", typ)
+		}
 		b.Containers.PutContainerValues(
 			binary.LittleEndian.Uint64(buf[0:8]),
-			byte(binary.LittleEndian.Uint16(buf[8:10])),
+			typ,
 			int(binary.LittleEndian.Uint16(buf[10:12]))+1,
 			true)
 	}
